@@ -99,3 +99,17 @@ def miri_cmd(features=(), release=False):
     if features:
         cmd += ["--features", ",".join(sorted(features))]
     return cmd, env
+
+
+def workdir(pid):
+    """Private scratch directory of this check run (parallel runs of the same check must not share files)."""
+    d = os.path.join(WORK, pid, "run-%d" % int(os.environ.get("VERIF_RUN_ID", os.getpid())))
+    os.makedirs(d, exist_ok=True)
+    return d
+
+
+def cleanup_workdir(pid):
+    if os.environ.get("VERIF_KEEP_WORK"):
+        return
+    d = os.path.join(WORK, pid, "run-%d" % int(os.environ.get("VERIF_RUN_ID", os.getpid())))
+    shutil.rmtree(d, ignore_errors=True)
